@@ -3,6 +3,7 @@
 package props
 
 import (
+	"bytes"
 	"crypto/rand"
 	"encoding/binary"
 	"errors"
@@ -33,6 +34,8 @@ type c18Case struct {
 	// acceptable; one that returns anything but the first usable block of the whole stream is not.
 	Transient string `json:"transient,omitempty"`
 	Pre       string `json:"pre"` // value pre-loaded in the receiver
+	// FailByPanic: the source does not return its failure, it panics with a value of this kind ("string", "error", "int").
+	FailByPanic string `json:"fail_by_panic,omitempty"`
 	Class    string `json:"class"`
 	// Conc > 0: that many goroutines call Random simultaneously on scalars they own, the source serving each read a
 	// fresh, unique, usable block (and yielding the processor just before it returns): every result must be one of the
@@ -84,6 +87,7 @@ type c18Reader struct {
 	zeroRun  int
 	reads    int
 	failures int
+	panicVal any // non-nil: a (non-transient) failure is a panic with this value
 }
 
 var errScripted = errors.New("scripted entropy failure")
@@ -105,6 +109,10 @@ func (r *c18Reader) Read(p []byte) (int, error) {
 
 	if r.pos >= limit {
 		r.failures++
+
+		if r.panicVal != nil {
+			panic(r.panicVal)
+		}
 
 		if r.failAt >= 0 && r.pos >= r.failAt {
 			return 0, errScripted
@@ -169,7 +177,7 @@ func init() {
 			"0..5 skipped blocks (0 and n) in every pattern, and runs of 6..100 skipped blocks, before the first usable one; read granularities 1,7,31,32,33, whole request, zero-length reads without error, mixed scripts; " +
 			"failures at byte 0,1,31,32,33,63,64,.. and after k skipped blocks, delivered either as a separate failing read or together with the last bytes; receiver pre-loaded with a known value. " +
 			"Oracle: the first block whose value mod n is non-zero, reduced mod n (math/big); result must be in [1,n-1] with stored limbs < n; if the source fails before such a block is complete, Random must panic. " +
-			"Single interrupted reads (an error wrapping EINTR / EAGAIN at every offset of the first two blocks, the source then carrying on): a panic or the correct first usable block of the whole stream are accepted, nothing else; after any panic the receiver may not hold zero or a non-canonical value. Concurrent runs: 2..16 goroutines call Random simultaneously on scalars they own while the source serves every read a fresh unique block and yields the processor just before returning: every result must be a served block and none may repeat. non-trivial = stream with at least one skipped block, a block >= n, a non-trivial chunking or a failure; distinct by the whole case.",
+			"Single interrupted reads (an error wrapping EINTR / EAGAIN at every offset of the first two blocks, the source then carrying on): a panic or the correct first usable block of the whole stream are accepted, nothing else; after any panic the receiver may not hold zero or a non-canonical value. A source that fails by panicking (with a string, an error, an int) must not be answered with a normal return. Second calls: whenever the first call is served without a fault, the source goes on with usable blocks and a second Random on it must return the first usable block following the blocks the first call examined. Concurrent runs: 2..16 goroutines call Random simultaneously on scalars they own while the source serves every read a fresh unique block and yields the processor just before returning: every result must be a served block and none may repeat. non-trivial = stream with at least one skipped block, a block >= n, a non-trivial chunking or a failure; distinct by the whole case.",
 		Assume:   []string{"concurrent runs: Random obtains entropy with reads whose sizes are multiples of 32 bytes (it uses io.ReadFull on a 32-byte buffer); the source serves a fresh unique block per 32 bytes of every read"},
 		NewCase:  func() any { return &c18Case{} },
 		Generate: c18Generate,
@@ -177,7 +185,7 @@ func init() {
 		Require: func(string) map[string]int64 {
 			return map[string]int64{
 				"streams": 2000, "outcome:value": 1000, "outcome:panic": 300, "skipped-blocks>=1": 500, "skipped:zero": 200, "skipped:n": 200, "block>=n": 300,
-				"chunk:1": 50, "chunk:zero-length": 50, "fail:mid-block": 100, "fail:block-boundary": 50, "fail:eager": 50, "concurrent-runs": 2, "concurrent-random-calls": 10000,
+				"chunk:1": 50, "chunk:zero-length": 50, "fail:mid-block": 100, "fail:block-boundary": 50, "fail:eager": 50, "fail:source-panics": 50, "second-call-on-the-same-stream": 1000, "concurrent-runs": 2, "concurrent-random-calls": 10000,
 			}
 		},
 	})
@@ -253,6 +261,13 @@ func c18Generate(c *mon.Ctx) {
 						c.Structured(func() any {
 							return &c18Case{Stream: full, Chunks: ch, FailAt: fa, EagerErr: eager, Pre: "1234", Class: fmt.Sprintf("fail@%d/skips=%d", fa, skips)}
 						})
+
+						if !eager {
+							kind := []string{"string", "error", "int"}[(fa+gi)%3]
+							c.Structured(func() any {
+								return &c18Case{Stream: full, Chunks: ch, FailAt: fa, FailByPanic: kind, Pre: "1234", Class: fmt.Sprintf("panic@%d/skips=%d", fa, skips)}
+							})
+						}
 					}
 				}
 			}
@@ -355,6 +370,10 @@ func c18Generate(c *mon.Ctx) {
 		if r.Intn(4) == 0 {
 			cs.FailAt = r.Intn(len(stream) + 1)
 			cs.EagerErr = r.Bool()
+
+			if !cs.EagerErr && r.Intn(3) == 0 {
+				cs.FailByPanic = []string{"string", "error", "int"}[r.Intn(3)]
+			}
 		}
 
 		return cs
@@ -509,6 +528,38 @@ func c18Run(c *mon.Ctx, csAny any) {
 	s := mon.Scal(pre)
 	rd := &c18Reader{data: stream, chunks: cs.Chunks, failAt: cs.FailAt, eager: cs.EagerErr}
 
+	switch cs.FailByPanic {
+	case "string":
+		rd.panicVal = "entropy source: hardware fault"
+	case "error":
+		rd.panicVal = errScripted
+	case "int":
+		rd.panicVal = 5
+	}
+
+	if cs.FailByPanic != "" {
+		c.Count("fail:source-panics")
+	}
+
+	// A second call on the same source: when the first call is served without a fault, the stream goes on after the scripted
+	// bytes with three usable blocks, and a second Random must return the first usable block FOLLOWING the blocks the first
+	// call examined (the source's bytes form one sequence of consecutive 32-byte blocks: a call that pulls bytes of later
+	// blocks out of the source and drops them hands the next caller a block that was never delivered as one).
+	var want2 *big.Int
+
+	if want != nil && cs.FailAt < 0 && cs.Transient == "" {
+		tail := bytes.Repeat([]byte{0x5a}, 96)
+		rest := append(append([]byte{}, stream[32*(skipped+1):]...), tail...)
+		rd.data = append(append([]byte{}, stream...), tail...)
+
+		for pos := 0; pos+32 <= len(rest); pos += 32 {
+			if v := oracle.Mod(new(big.Int).SetBytes(rest[pos:pos+32]), n); v.Sign() != 0 {
+				want2 = v
+				break
+			}
+		}
+	}
+
 	switch cs.Transient {
 	case "eintr":
 		rd.transient = fmt.Errorf("read /dev/urandom: %w", syscall.EINTR)
@@ -527,6 +578,26 @@ func c18Run(c *mon.Ctx, csAny any) {
 
 	c.Eval(1)
 	pan, pv := mon.Call(func() { ret = s.Random() })
+
+	if want2 != nil && !pan {
+		s2 := mon.Scal(big.NewInt(3))
+
+		c.Eval(1)
+		c.Count("second-call-on-the-same-stream")
+
+		if pan2, pv2 := mon.Call(func() { s2.Random() }); pan2 {
+			rand.Reader = old
+			c.Fail(fmt.Sprintf("a second Random on the same source panicked (%v) although the stream goes on with usable blocks (first call consumed %d bytes)", pv2, rd.pos), "random-second-call-panic", nil)
+
+			return
+		} else if got2 := mon.ScalVal(s2); got2.Cmp(want2) != 0 {
+			rand.Reader = old
+			c.Fail(fmt.Sprintf("a second Random on the same source = %x, want %x: the first call examined %d block(s) of the stream, the next usable block follows them (the source has delivered %d bytes by now)", got2, want2, skipped+1, rd.pos), "random-second-call-value", nil)
+
+			return
+		}
+	}
+
 	rand.Reader = old
 
 	if pan {
